@@ -19,7 +19,7 @@ import sympy as sp
 
 from wgvc.api import *            # noqa: F401,F403
 from wgvc import sym
-from .common import thermo_spec, eos_registry, gammaSq
+from .common import thermo_spec, eos_registry, gammaSq, template_cross, template_sample
 from .C06_admissible import make_template
 
 PROPERTY = "C15"
@@ -96,7 +96,10 @@ def c_getVp(chk):
             for c in pre:
                 it.assume(c)
             return make_template(), [vm, al, branch], {}, {}
-        for i, p in enumerate(sel(chk.summarize(MODULE, "HydrodynamicsTemplateModel.getVp", mk))):
+        gv_paths = sel(chk.summarize(MODULE, "HydrodynamicsTemplateModel.getVp", mk))
+        if branch == -1:
+            template_cross(chk, "getVp", gv_paths, ["vm", "al", -1], lambda rnd, env: {"vm": rnd.uniform(0.3, 0.55), "al": rnd.uniform(0.005, 0.05)})
+        for i, p in enumerate(gv_paths):
             vp = p.value
             disc = vm**4 - 2 * cb**2 * vm**2 * (1 - 6 * al) + cb**4 * (1 - 12 * vm**2 * al * (1 - 3 * al))
             chk.vc(f"getVp.branch{branch}.solves-wall-relation.{i}", p.pc + [Ge(disc, 0)], wall_relation(vp, vm, al), func=fn)
@@ -143,7 +146,9 @@ def c_wFromAlpha(chk):
         for c in POS:
             it.assume(c)
         return make_template(), [al], {}, {}
-    for i, p in enumerate(sel(chk.summarize(MODULE, "HydrodynamicsTemplateModel.wFromAlpha", mk))):
+    wf_paths = sel(chk.summarize(MODULE, "HydrodynamicsTemplateModel.wFromAlpha", mk))
+    template_cross(chk, "wFromAlpha", wf_paths, ["al"], lambda rnd, env: {"al": rnd.uniform(0.01, 0.3)})
+    for i, p in enumerate(wf_paths):
         w = p.value
         A, B = (1 - 3 * alN) * mu_ - nu_, (1 - 3 * al) * mu_ - nu_
         chk.vc(f"wFromAlpha.template-eos.{i}", p.pc + [Ne(A, 0), Ne(B, 0)], Eq(w * B, A), func=fn)
